@@ -1,52 +1,127 @@
-import Spine.DiscoveryFixed
+import Spine.DiscoveryCascade
+/-! Line-protocol driver of the C06 model family (`Spine.Disc.World`).
+    args: `whole=0|1` (notification entries handled over the whole message, as written = 1)
+          `bindent=0|1` (entity removal drops bindings by entity address only, as written = 1)
+    ops:  reset
+          msg P reply|partial|full ENT* | FEAT*      ENT = addr:typ:chg:desc   FEAT = ent:id:typ:role:desc:fns
+          sub|bind P cEnt cFeat sEnt sFeat            (a request the real code granted)
+          csub|cbind P lEnt lFeat rEnt rFeat          (client-side bookkeeping of a local client feature)
+    answer: `T tree | E events | S subs | B binds | CS csubs | CB cbinds`; unknown op: `bad-op`. -/
 open Spine.Disc
 
 def parseAddr (s : String) : List Nat := (s.splitOn ".").map String.toNat!
 
-def parseEI (s : String) : EI :=
-  match s.splitOn ":" with
-  | [a, t, c] => ⟨parseAddr a, t.toNat!, if c = "a" then .added else if c = "r" then .removed else .none⟩
-  | _ => ⟨[], 0, .none⟩
+def parseOptNat (s : String) : Option Nat := if s = "-" then none else some s.toNat!
 
-def parseF (s : String) : F :=
+def parseEI (s : String) : Option EI :=
   match s.splitOn ":" with
-  | [e, i, t, r] => ⟨parseAddr e, i.toNat!, t.toNat!, r.toNat!⟩
-  | _ => ⟨[], 0, 0, 0⟩
+  | [a, t, c, d] =>
+    -- a removed entry may omit the entity type (`-`); the model never reads it
+    let ty := (parseOptNat t).getD 0
+    if c = "a" then some ⟨parseAddr a, ty, .added, parseOptNat d⟩
+    else if c = "r" then some ⟨parseAddr a, ty, .removed, parseOptNat d⟩
+    else if c = "n" then some ⟨parseAddr a, ty, .none, parseOptNat d⟩
+    else none
+  | _ => none
+
+def parseFn (s : String) : Option (Nat × Option Nat) :=
+  match s.splitOn "=" with
+  | [f, b] => some (f.toNat!, if b = "x" then none else some b.toNat!)
+  | _ => none
+
+def parseFI (s : String) : Option FI :=
+  match s.splitOn ":" with
+  | [e, i, t, r, d, fns] =>
+    let l := if fns = "-" then [] else (fns.splitOn ",").map parseFn
+    if l.any (·.isNone) then none
+    else some ⟨parseAddr e, i.toNat!, t.toNat!, r.toNat!, parseOptNat d, l.filterMap id⟩
+  | _ => none
 
 def showAddr (a : List Nat) : String := ".".intercalate (a.map toString)
+def showOpt : Option Nat → String
+  | none => "-"
+  | some n => toString n
+
+def showF (f : F) : String :=
+  s!"{f.id}:{f.typ}:{f.role}:{showOpt f.desc}:" ++
+    (if f.ops.isEmpty then "-" else "+".intercalate (f.ops.map fun (g, b) => s!"{g}={b}"))
 
 def showTree (t : Tree) : String :=
-  ";".intercalate (t.map fun e => s!"{showAddr e.addr}({e.typ})[" ++ ",".intercalate (e.feats.map fun f => s!"{f.id}:{f.typ}:{f.role}") ++ "]")
+  ";".intercalate (t.map fun e => s!"{showAddr e.addr}({e.typ};{showOpt e.desc})[" ++ ",".intercalate (e.feats.map showF) ++ "]")
 
-def showEvts (l : List Evt) : String :=
-  let ss := l.map fun | .add a => "+" ++ showAddr a | .rem a => "-" ++ showAddr a
+def sortJoin (ss : List String) : String :=
   if ss.isEmpty then "." else ",".intercalate (ss.toArray.qsort (· < ·)).toList
 
-def answer (fixed : Bool) (t : Tree) (ws : List String) : Tree × String :=
-  match ws with
-  | kind :: rest =>
-    let ents := (rest.takeWhile (· ≠ "|")).map parseEI
-    let feats := ((rest.dropWhile (· ≠ "|")).drop 1).map parseF
-    let m : Msg := ⟨ents, feats⟩
-    let r : Tree × List Evt :=
-      match kind with
-      | "reply" => reply m t
-      | "partial" => if fixed then let x := notifyPartialFixed m t; (x.1, x.2.1) else let x := notifyPartial m t; (x.1, x.2.1)
-      | "full" => if fixed then let x := notifyFullFixed m t; (x.1, x.2.1) else let x := notifyFull m t; (x.1, x.2.1)
-      | _ => (t, [])
-    (r.1, showTree r.1 ++ " | " ++ showEvts r.2)
-  | _ => (t, "bad-op")
+def showEvts (l : List Evt) : String :=
+  sortJoin (l.map fun | .add a => "+" ++ showAddr a | .rem a => "-" ++ showAddr a)
 
-partial def loop (h : IO.FS.Stream) (fixed : Bool) (t : Tree) : IO Unit := do
+def showRE (l : List RE) : String :=
+  sortJoin (l.map fun e => s!"{e.peer}/{showAddr e.cEnt}/{e.cFeat}>{showAddr e.sEnt}/{e.sFeat}")
+
+/-- the client-side bookkeeping is observable only through `HasSubscriptionToRemote` / `HasBindingToRemote`:
+    a set -/
+def showCE (l : List CE) : String :=
+  sortJoin (l.eraseDups.map fun e => s!"{showAddr e.lEnt}/{e.lFeat}>{e.peer}/{showAddr e.rEnt}/{e.rFeat}")
+
+def showReg (w : World) : String :=
+  s!"S {showRE w.subs} | B {showRE w.binds} | CS {showCE w.csubs} | CB {showCE w.cbinds}"
+
+def tree0 : Tree := [⟨[0], 0, none, [⟨[0], 0, 9, 2, none, []⟩]⟩]
+def world0 : World := { trees := fun _ => tree0 }
+
+def answer (c : Cfg) (w : World) (ws : List String) : World × String :=
+  match ws with
+  | "msg" :: p :: kind :: rest =>
+    let ents := (rest.takeWhile (· ≠ "|")).map parseEI
+    let feats := ((rest.dropWhile (· ≠ "|")).drop 1).map parseFI
+    let k : Option Kind := if kind = "reply" then some .reply else if kind = "partial" then some .part
+      else if kind = "full" then some .full else none
+    match k with
+    | none => (w, "bad-op")
+    | some k =>
+      if ents.any (·.isNone) || feats.any (·.isNone) || !rest.contains "|" then (w, "bad-op") else
+      let m := Msg.ofWire ⟨ents.filterMap id, feats.filterMap id⟩
+      let p := p.toNat!
+      let (w', evs) := w.step c p k m
+      (w', s!"T {showTree (w'.trees p)} | E {showEvts evs} | " ++ showReg w')
+  | [op, p, a, b, c', d] =>
+    let p := p.toNat!
+    if op = "sub" then
+      let w' := { w with subs := w.subs ++ [⟨p, parseAddr a, b.toNat!, parseAddr c', d.toNat!⟩] }; (w', showReg w')
+    else if op = "bind" then
+      let w' := { w with binds := w.binds ++ [⟨p, parseAddr a, b.toNat!, parseAddr c', d.toNat!⟩] }; (w', showReg w')
+    else if op = "csub" then
+      let w' := { w with csubs := w.csubs ++ [⟨parseAddr a, b.toNat!, p, parseAddr c', d.toNat!⟩] }; (w', showReg w')
+    else if op = "cbind" then
+      let w' := { w with cbinds := w.cbinds ++ [⟨parseAddr a, b.toNat!, p, parseAddr c', d.toNat!⟩] }; (w', showReg w')
+    else (w, "bad-op")
+  | _ => (w, "bad-op")
+
+partial def loop (h : IO.FS.Stream) (c : Cfg) (w : World) : IO Unit := do
   let line ← h.getLine
   if line.isEmpty then return ()
   let ws := (line.trimAscii.toString.splitOn " ").filter (· ≠ "")
   match ws with
-  | ["reset"] => IO.println "ok"; (← IO.getStdout).flush; loop h fixed [⟨[0], 0, []⟩]
+  | ["reset"] => IO.println "ok"; (← IO.getStdout).flush; loop h c world0
   | _ =>
-    let (t', out) := answer fixed t ws
+    let (w', out) := answer c w ws
     IO.println out
     (← IO.getStdout).flush
-    loop h fixed t'
+    loop h c w'
 
-def main (args : List String) : IO Unit := do loop (← IO.getStdin) (args == ["fixed"]) []
+def parseArgs : List String → Option Cfg
+  | [] => some {}
+  | a :: rest =>
+    match parseArgs rest with
+    | none => none
+    | some c =>
+      if a = "whole=1" then some { c with wholeMessage := true }
+      else if a = "whole=0" then some { c with wholeMessage := false }
+      else if a = "bindent=1" then some { c with bindEntityOnly := true }
+      else if a = "bindent=0" then some { c with bindEntityOnly := false }
+      else none
+
+def main (args : List String) : IO UInt32 := do
+  match parseArgs args with
+  | none => IO.eprintln s!"drv_disc: bad arguments {args}"; return 2
+  | some c => loop (← IO.getStdin) c world0; return 0
